@@ -74,6 +74,34 @@ theorem scan_str_body (q : Char) (hq : isQuote q = true) (s : List Char)
     simp only [List.cons_append, scan, h1, h2]
     exact ih hs.2
 
+/-- inside quoted text a run without delimiter and backslash is skipped -/
+theorem scan_str_seg (q : Char) (s : List Char) (hs : cleanSeg q s = true) (cur rest : List Char) :
+    scan (.str q) cur (s ++ rest) = scan (.str q) cur rest := by
+  induction s with
+  | nil => rfl
+  | cons c cs ih =>
+    simp only [cleanSeg, List.all_cons, Bool.and_eq_true, bne_iff_ne, ne_eq] at hs
+    have h1 : (c == '\\') = false := by simpa using hs.1.2
+    have h2 : (c == q) = false := by simpa using hs.1.1
+    simp only [List.cons_append, scan, h1, h2]
+    exact ih (by simpa [cleanSeg] using hs.2)
+
+/-- …and so is every segment that ends in an escaped delimiter -/
+theorem scan_esc_body (q : Char) (segs : List (List Char)) (hs : segs.all (cleanSeg q) = true)
+    (cur rest : List Char) :
+    scan (.str q) cur (escBody q segs ++ rest) = scan (.str q) cur rest := by
+  induction segs with
+  | nil => rfl
+  | cons a r ih =>
+    simp only [List.all_cons, Bool.and_eq_true] at hs
+    have e : escBody q (a :: r) ++ rest = a ++ ('\\' :: q :: (escBody q r ++ rest)) := by
+      simp [escBody]
+    rw [e, scan_str_seg q a hs.1]
+    have h1 : scan (.str q) cur ('\\' :: q :: (escBody q r ++ rest))
+        = scan (.str q) cur (escBody q r ++ rest) := by
+      simp [scan]
+    rw [h1, ih hs.2]
+
 /-- a separator ends the current word and contributes nothing -/
 theorem scan_sep (s : Sep) (hs : s ≠ .none) (cur rest : List Char) :
     scan .code cur (s.chars ++ rest) = flush cur ++ scan .code [] rest := by
@@ -137,6 +165,19 @@ theorem scan_render_gen (xs : List (Tok × Sep)) :
           = flush cur ++ scan (.str q) [] (body ++ q :: (s.chars ++ render r)) := by
         simp [scan, quote_not_word hq, hq]
       rw [hr, h1, scan_str_body q hq body hbody, scan_sep_nil, ih [] hvr (Or.inl rfl)]
+      simp [flush_nil, wordsOf]
+    | strEsc q segs last =>
+      simp only [valid, Tok.wf, Bool.and_eq_true] at hv
+      obtain ⟨⟨⟨⟨hq, hsegs⟩, hlast⟩, _⟩, hvr⟩ := hv
+      have hlast' : last.all (fun c => c != q && c != '\\') = true := hlast
+      have hr : render ((Tok.strEsc q segs last, s) :: r)
+          = q :: (escBody q segs ++ (last ++ q :: (s.chars ++ render r))) := by
+        simp [render, Tok.chars]
+      have h1 : scan .code cur (q :: (escBody q segs ++ (last ++ q :: (s.chars ++ render r))))
+          = flush cur ++ scan (.str q) [] (escBody q segs ++ (last ++ q :: (s.chars ++ render r))) := by
+        simp [scan, quote_not_word hq, hq]
+      rw [hr, h1, scan_esc_body q segs hsegs, scan_str_body q hq last hlast', scan_sep_nil,
+        ih [] hvr (Or.inl rfl)]
       simp [flush_nil, wordsOf]
     | sym c =>
       simp only [valid, Tok.wf, Bool.and_eq_true, Bool.not_eq_true', bne_iff_ne, ne_eq] at hv
